@@ -26,6 +26,12 @@
 (*   "calls"    every call graph over vcl_recv + 3 subroutines (2^9 edge   *)
 (*              sets) x 1..MaxReq requests: recursion is cut by the guard  *)
 (*   "include"  every include graph over main + 2 modules                  *)
+(*   "jump"     control transfer (restart / error / return) out of a called *)
+(*              plain / functional subroutine, top-level or nested, from    *)
+(*              every lifecycle scope                                       *)
+(*   "initerr"  programs rejected at request initialisation x 2..3 requests *)
+(*              on one simulator instance                                   *)
+(*   "director" director declarations with boundary weight/quorum/retries   *)
 (*   "request"  method x path x query x header classes x four programs     *)
 (*              that take the request apart (URL parts, query string       *)
 (*              functions, regular expressions, cookies / sub-fields)      *)
@@ -111,16 +117,21 @@ PredictAssign(c) == IF c.vt = "HEADER" THEN PredictHeader(c) ELSE PredictLocal(c
 -----------------------------------------------------------------------------
 (* built-in functions: Builtins (from BuiltinsTable) is a sequence of       *)
 (* [fn, scope, ret, sigs: sequence of sequences of argument types]          *)
-NClasses == 6        \* the concretiser knows classes 1..NClasses per argument type (fewer distinct ones for some types)
-RECURSIVE Vectors(_, _)
-\* all class vectors of length n when there are few, else the "star": all-k vectors plus one argument varied at a time
+NClasses == 8        \* the concretiser knows classes 1..NClasses per argument type (fewer distinct ones for some types)
+\* all class vectors of length n when there are few, else the "star": all-k vectors plus one argument varied at a time;
+\* and, for every INTEGER parameter, all class pairs with every other parameter - sizes and counts multiply
+\* (len(s) * count, width - len(s), ...) and such products wrap only for particular *combinations* of extremes
 AllVectors(n) == [1..n -> 1..NClasses]
 Star(n) == {[i \in 1..n |-> k] : k \in 1..NClasses} \cup
            {[i \in 1..n |-> IF i = j THEN k ELSE b] : j \in 1..n, k \in 1..NClasses, b \in {1, 2}}
-Vectors(n, full) == IF n = 0 THEN {<<>>} ELSE IF full /\ n <= 2 THEN AllVectors(n) ELSE Star(n)
+IntPairs(types) == LET n == Len(types) IN
+  {[i \in 1..n |-> IF i = x[1] THEN x[3] ELSE IF i = x[2] THEN x[4] ELSE 2]
+     : x \in {y \in (1..n) \X (1..n) \X (1..NClasses) \X (1..NClasses) : y[1] # y[2] /\ types[y[1]] = "INTEGER"}}
+Vectors(types, full) == LET n == Len(types) IN
+  IF n = 0 THEN {<<>>} ELSE IF full /\ n <= 2 THEN AllVectors(n) ELSE Star(n) \cup IntPairs(types)
 BuiltinFam(i, full) ==
   UNION { { [k |-> "builtin", fn |-> Builtins[i].fn, scope |-> Builtins[i].scope, ret |-> Builtins[i].ret,
-             types |-> Builtins[i].sigs[j], classes |-> v] : v \in Vectors(Len(Builtins[i].sigs[j]), full) }
+             types |-> Builtins[i].sigs[j], classes |-> v] : v \in Vectors(Builtins[i].sigs[j], full) }
           : j \in 1..Len(Builtins[i].sigs) }
 
 -----------------------------------------------------------------------------
@@ -157,6 +168,28 @@ RequestCells == { [k |-> "request", method |-> m, path |-> p, query |-> q, heade
                       q \in {"none", "empty", "dup", "long", "odd"}, h \in {"none", "plain", "dup", "empty", "long", "evil", "nonascii"},
                       g \in {"echo", "query", "regex", "cookie"} }
 
+(* control transfer out of a called subroutine: restart / return(restart) / error / return(error) / a forward action, *)
+(* as the top-level statement of the callee or nested in if / switch / block, the callee being a plain subroutine,    *)
+(* a functional subroutine invoked with `call`, or a functional subroutine used in an expression, called              *)
+(* unconditionally from each lifecycle scope - only the restart bound can end such a request.  The interpreter has   *)
+(* two copies of the statement dispatch (ProcessBlockStatement, ProcessFunctionSubroutine) that must agree.           *)
+JumpCells == { [k |-> "jump", jstmt |-> st, nest |-> n, callkind |-> c, scope |-> sc, nreq |-> 3]
+                 : st \in {"restart_stmt", "restart_ret", "error_stmt", "error_ret", "action_ret"}, n \in {"top", "if", "switch", "block"},
+                   c \in {"plain", "fcall", "fexpr"}, sc \in {"recv", "hit", "miss", "pass", "fetch", "error", "deliver"} }
+MaxRestarts == 3
+\* requirement besides value-or-error: however the restart is written, a request is restarted at most MaxRestarts times
+
+(* programs the simulator rejects when it initialises a request, followed by more requests on the SAME instance:      *)
+(* every request of the history must be answered (an init error is deterministic, so each one is a reported error)    *)
+InitErrClasses == {"dup-sub", "dup-table", "dup-acl", "dup-backend", "dup-director", "six-backends", "include-missing", "include-self",
+                   "call-tree", "director-empty", "parse-error", "runtime-control"}
+InitErrCells == { [k |-> "initerr", class |-> cl, nreq |-> n] : cl \in InitErrClasses, n \in 2..3 }
+
+(* director declarations with boundary weights / quorum / retries, selected as the backend of a passed request *)
+DirectorCells == { [k |-> "director", dtype |-> t, weight |-> w, quorum |-> q, retries |-> r, nreq |-> 2]
+                     : t \in {"random", "fallback", "hash", "client", "chash"}, w \in {"1", "-1", "500", "501", "1000", "1001", "MAX"},
+                       q \in {"-1", "0", "50", "100", "101"}, r \in {"-1", "0", "1", "MAX"} }
+
 -----------------------------------------------------------------------------
 VARIABLES phase, item
 vars == <<phase, item>>
@@ -168,14 +201,21 @@ Keys == CASE Mode = "assign"  -> {<<vt, op>> : vt \in LeftTypes, op \in Ops}
           [] Mode = "calls"   -> {<<n, 0>> : n \in 1..MaxReq}
           [] Mode = "include" -> {<<0, 0>>}
           [] Mode = "request" -> {<<g, 0>> : g \in {"echo", "query", "regex", "cookie"}}
+          [] Mode = "jump"    -> {<<c, 0>> : c \in {"plain", "fcall", "fexpr"}}
+          [] Mode = "initerr" -> {<<0, 0>>}
+          [] Mode = "director" -> {<<t, 0>> : t \in {"random", "fallback", "hash", "client", "chash"}}
 Fam(key) ==
   CASE Mode = "assign"  -> AssignFam(key[1], key[2])
     [] Mode \in {"builtin", "builtin-full"} -> BuiltinFam(key[1], Mode = "builtin-full")
     [] Mode = "calls"   -> {c \in CallCells : c.nreq = key[1]}
     [] Mode = "include" -> IncludeCells
     [] Mode = "request" -> {c \in RequestCells : c.prog = key[1]}
+    [] Mode = "jump"    -> {c \in JumpCells : c.callkind = key[1]}
+    [] Mode = "initerr" -> InitErrCells
+    [] Mode = "director" -> {c \in DirectorCells : c.dtype = key[1]}
 Predict(c) == CASE c.k = "assign" -> PredictAssign(c) [] c.k = "builtin" -> "any" [] c.k = "calls" -> PredictCalls(c)
-                [] c.k = "include" -> PredictInclude(c) [] c.k = "request" -> "any"
+                [] c.k = "include" -> PredictInclude(c) [] c.k = "request" -> "any" [] c.k = "jump" -> "any" [] c.k = "director" -> "any"
+                [] c.k = "initerr" -> "error"
 
 Init == phase = "part" /\ item \in Keys
 Next == phase = "part" /\ \E c \in Fam(item) : item' = c /\ phase' = "emit"
